@@ -1,7 +1,7 @@
 #!/bin/bash
 # usage: regress.sh [refac|seed|seed2|all]  -- regression matrix: behaviour-preserving patches must stay silent, seeded changes must be caught
 what=${1:-all}
-WT=/tmp/wt_reg
+WT=${REGWT:-/tmp/wt_reg}
 export GOFLAGS=-mod=mod GOPROXY=off GOSUMDB=off GOTOOLCHAIN=local GOWORK=off
 head=$(git -C /repo rev-parse HEAD)
 if [ ! -d $WT ]; then git -C /repo worktree add -q --detach $WT HEAD || exit 2; fi
